@@ -1,6 +1,6 @@
 """C19 - @inject is equivalent to explicit lookups in the current context.
 
-case = {backend, sched_seed, is_async, method, negative: None|posonly|noannot|uncalled,
+case = {backend, sched_seed, is_async, method, block: None|foreign|inner, negative: None|posonly|noannot|uncalled,
         params: [{name, kind: pos|kwonly, has_default}], args: {...},
         injected: [{name, t, rname, annot: plain|optional|pep604|str|str_optional|str_local, state: static|factory|async_factory|inherited|missing}],
         call: same|nested|task|none}
@@ -9,6 +9,10 @@ Differential oracle: the generated function is compiled twice - decorated with @
 undecorated.  From identical, freshly built context histories the decorated function is
 called, and the undecorated one is called with the values of explicit get_resource /
 get_resource_nowait lookups made in parameter order.  Outcomes must agree.
+
+Absolute oracle (model_result): the decorated call's outcome predicted from the case alone - which
+published object each parameter gets, None for an optional one when nothing matches, ResourceNotFound
+otherwise - so that a defect which the decorated call and the explicit lookups share is still seen.
 """
 
 from __future__ import annotations
@@ -42,7 +46,9 @@ class T2(T0):
 TYPES = [T0, T1, T2]
 ANNOTS = ["plain", "optional", "pep604", "str", "str_optional", "str_local", "none_first", "union_none_first", "str_none_first",
           "optional_fwd", "union_fwd", "union_none_first_fwd"]
-STATES = ["static", "factory", "async_factory", "inherited", "missing"]
+STATES = ["static", "factory", "async_factory", "inherited", "missing", "side_factory", "side_static"]
+# published only in a context that is NOT on the caller's chain (a child entered and left before the call): nothing matches
+MISSING_LIKE = ("missing", "side_factory", "side_static")
 
 
 @st.composite
@@ -65,7 +71,8 @@ def cases(draw: Any, tier: str) -> dict:
         used.add((t, rname))
         annot = d.pick(ANNOTS)
         injected.append({"name": f"r{i}", "t": t, "rname": rname, "annot": annot,
-                         "state": d.weighted([("static", 30), ("factory", 18), ("async_factory", 14), ("inherited", 18), ("missing", 20)]),
+                         "state": d.weighted([("static", 28), ("factory", 16), ("async_factory", 12), ("inherited", 16), ("missing", 16),
+                                             ("side_factory", 7), ("side_static", 5)]),
                          "kwonly": d.pct(60)})
     if len(injected) >= 2 and negative is None and d.pct(15):
         # one resource() marker object reused as the default of two parameters of different types
@@ -91,7 +98,10 @@ def cases(draw: Any, tier: str) -> dict:
     return {"backend": draw(BACKEND), "sched_seed": draw(SEED), "is_async": d.bool(), "method": method, "negative": negative,
             "params": params, "args": args, "injected": injected,
             "call": d.weighted([("same", 38), ("nested", 22), ("task", 16), ("none", 8), ("component", 16)]), "second_call": d.pct(35),
-            "future_annotations": d.pct(35)}
+            "future_annotations": d.pct(35),
+            # before the call another context is entered and left again: "foreign" = made with an explicit parent
+            # that is not the current context, "inner" = an ordinary nested one
+            "block": d.weighted([(None, 70), ("foreign", 18), ("inner", 12)])}
 
 
 def strategy(prop: str, tier: str) -> st.SearchStrategy:
@@ -287,6 +297,27 @@ class OneRun:
                             return new(inj, "generated")
                     ctx.add_resource_factory(fac, inj["rname"], types=[T])
 
+        async def side_population() -> None:
+            if not any(i["state"] in ("side_factory", "side_static") for i in case["injected"]):
+                return
+            async with Context() as side:
+                for inj in case["injected"]:
+                    if inj["state"] == "side_static":
+                        side.add_resource(new(inj, "side"), inj["rname"], types=[typ(inj)])
+                    elif inj["state"] == "side_factory":
+                        def fac(inj: dict = inj) -> Any:
+                            self.fcalls[inj["name"]] = self.fcalls.get(inj["name"], 0) + 1
+                            return new(inj, "side-generated")
+                        side.add_resource_factory(fac, inj["rname"], types=[typ(inj)])
+
+        async def block(outer: Any) -> None:
+            if case.get("block") == "foreign":
+                async with Context(outer):
+                    await anyio.lowlevel.checkpoint()
+            elif case.get("block") == "inner":
+                async with Context():
+                    await anyio.lowlevel.checkpoint()
+
         async def call() -> Any:
             args = [case["args"][p["name"]] for p in case["params"] if p["kind"] == "pos" and p["name"] in case["args"]]
             # positional parameters without a value must be the trailing ones
@@ -319,10 +350,12 @@ class OneRun:
                     self.harness_exc = exc
                 return ("raise", type(exc).__name__)
 
-        async def in_ctx(ctx: Any) -> None:
+        async def in_ctx(ctx: Any, outer: Any) -> None:
             cm = ctx.resource_added.stream_events(max_queue_size=1000)
             it = await cm.__aenter__()
             populate(ctx, "call")
+            await side_population()
+            await block(outer)
             if case["call"] == "task":
                 async def child() -> None:
                     self.result = await call()
@@ -333,7 +366,7 @@ class OneRun:
             if case.get("second_call"):
                 # what was missing is published now; a second call must see the new state
                 for inj in case["injected"]:
-                    if inj["state"] == "missing":
+                    if inj["state"] in MISSING_LIKE:
                         ctx.add_resource(new(inj, "late"), inj["rname"], types=[typ(inj)])
                 self.result = (self.result, await call())
             sentinel = ResourceEvent((), "__s__", None, False)
@@ -360,6 +393,7 @@ class OneRun:
                 it = await cm.__aenter__()
                 populate(parent, "parent")
                 populate(parent, "call")
+                await side_population()
 
                 class Caller(Component):
                     async def start(self) -> None:
@@ -369,7 +403,7 @@ class OneRun:
                     async def start(self) -> None:
                         await anyio.sleep(1)
                         for inj in case["injected"]:
-                            if inj["state"] == "missing":
+                            if inj["state"] in MISSING_LIKE:
                                 add_resource(new(inj, "late"), inj["rname"], types=[typ(inj)])
 
                 class Root(Component):
@@ -395,10 +429,42 @@ class OneRun:
             ensure_compiled()
             populate(parent, "parent")
             if case["call"] == "same":
-                await in_ctx(parent)
+                await in_ctx(parent, parent)
             else:
                 async with Context() as child_ctx:
-                    await in_ctx(child_ctx)
+                    await in_ctx(child_ctx, parent)
+
+
+def model_result(case: dict) -> Any:
+    """What the statement of C19 (and of the lookup API it refers to) says the decorated call gives;
+    written from the case alone.  None when the case is outside the model (component start-up)."""
+    if case["call"] == "component":
+        return None
+    if case["call"] == "none":
+        return ("raise", "NoCurrentContext")
+
+    def one(second: bool) -> Any:
+        ordered = [i for i in case["injected"] if not i["kwonly"]] + [i for i in case["injected"] if i["kwonly"]]
+        vals: dict[str, Any] = {}
+        for inj in ordered:
+            st_ = inj["state"]
+            if st_ in MISSING_LIKE:
+                if second:
+                    vals[inj["name"]] = inj["name"] + ":late"
+                elif is_optional(inj):
+                    vals[inj["name"]] = None
+                else:
+                    return ("raise", "ResourceNotFound")
+            elif st_ in ("static", "inherited"):
+                vals[inj["name"]] = f"{inj['name']}:{st_}"
+            elif st_ == "factory" or case["is_async"]:
+                vals[inj["name"]] = inj["name"] + ":generated"
+            else:
+                return ("raise", "AsyncResourceError")
+        plain = [case["args"].get(p["name"], -1) for p in case["params"]]
+        return ("ok", tuple(plain + [vals[i["name"]] for i in case["injected"]]))
+
+    return (one(False), one(True)) if case.get("second_call") else one(False)
 
 
 def run_case(case: dict, prop: str) -> Outcome:
@@ -411,6 +477,8 @@ def run_case(case: dict, prop: str) -> Outcome:
     for inj in case["injected"]:
         labs.add("state=" + inj["state"])
         labs.add("annot=" + inj["annot"])
+    if case.get("block"):
+        labs.add("block=" + case["block"])
     if case["negative"]:
         labs.add("negative=" + case["negative"])
         try:
@@ -459,6 +527,10 @@ def run_case(case: dict, prop: str) -> Outcome:
         elif exp.result[0] == "raise":
             kind = "different-exception"
         disc(kind, f"decorated call gave {dec.result!r}, explicit lookups + undecorated call gave {exp.result!r}\n{src}")
+    elif model_result(case) is not None and dec.result != model_result(case):
+        disc("model-result", f"decorated call gave {dec.result!r} (and so did explicit lookups); from the published resources "
+             f"{[(i['name'], i['state'], i['annot']) for i in case['injected']]} (call={case['call']}, block={case.get('block')}) "
+             f"it must give {model_result(case)!r}\n{src}")
     elif dec.body_ran != exp.body_ran:
         disc("body-ran", f"function body ran {dec.body_ran} times with @inject, {exp.body_ran} times with explicit lookups\n{src}")
     elif dec.fcalls != exp.fcalls:
@@ -485,7 +557,7 @@ def shrink_candidates(case: dict):
             c = copy.deepcopy(case)
             del c["injected"][i]
             yield c
-    for key, val in (("method", False), ("call", "same"), ("backend", "asyncio"), ("sched_seed", 0)):
+    for key, val in (("method", False), ("call", "same"), ("backend", "asyncio"), ("sched_seed", 0), ("block", None), ("second_call", False)):
         if case.get(key) != val:
             c = copy.deepcopy(case)
             c[key] = val
